@@ -16,7 +16,8 @@ RULE = (
     "statement units; 9 declarator units) nested k deep - all single units and all ordered pairs are enumerated, Hypothesis "
     "composes triples; repetition families: k-fold repetition of every declaration/statement kind and long "
     "operator/argument/initializer/parameter/enumerator/member/string chains. Oracle (deterministic): number of Python call "
-    "events whose code lives under the pycparser package (sys.setprofile) at k = 8, 16, 32 (repetition: 50, 100, 200); "
+    "events whose code lives under the pycparser package (sys.setprofile) at k = 8, 16, 32; repetition families are measured in "
+    "LINE events (sys.settrace) at k = 50, 100, 200, which also sees loops that call nothing (e.g. walking a scope stack); "
     "required steps(2k) <= 2.3 * steps(k) + 400 at every doubling; a family is cut off and fails when it exceeds 50x the linear "
     "extrapolation. Lexer regexes (work invisible to the profiler): adversarial literal prefixes of length n = 64..512 (runs of "
     "\\123, \\x41, \\\\, digits, hex digits, './e', unterminated quotes, quote runs, comment openers) timed best-of-5: fails "
@@ -46,6 +47,7 @@ S = [
     ("default: ", ""), ("L: ", ""), ("\n#pragma p\n", ""),
 ]  # fmt: skip
 D = [("*", ""), ("* const ", ""), ("(", ")"), ("", "[1]"), ("", "(void)"), ("(*", ")(void)"), ("(*", ")[2]"), ("", "(int a)"), ("", "[]")]
+QUARANTINED_REPEAT = ("array_dims",)  # F34: k array suffixes on one declarator cost k^2 (tail walk per suffix)
 QUARANTINED_UNIT = ("(int[", "]){0}")  # F30: compound literal in the type name of a compound literal
 
 
@@ -97,6 +99,11 @@ REPEAT = {
     "static_asserts": lambda k: '_Static_assert(1, "m");' * k,
     "semicolons": lambda k: ";" * k + "int x;",
     "casts_seq": lambda k: "void f(void){" + "(T)(a); (a)(b);" * k + "}",
+    "knr_fdefs": lambda k: "typedef int T; int g0;" + "".join("int f%d(a, b) int a; T *b; { return h(a) + g0 + b[0]; }\n" % i for i in range(k)),
+    "fdefs_with_locals": lambda k: "typedef int T;" + "".join("static T f%d(T a, int *b) { int c = a; { T d = c + g(b); } return c; }\n" % i for i in range(k)),
+    "nested_blocks_seq": lambda k: "void f(void){" + "{ int a; { int b; } }" * k + "}",
+    "for_decl_seq": lambda k: "void f(void){" + "for (int i = 0; i < n; i++) s += i;" * k + "}",
+    "typedef_chain": lambda k: "typedef int t0;" + "".join("typedef t%d t%d;" % (i, i + 1) for i in range(k)),
     "struct_defs": lambda k: "".join("struct S%d { int a; struct S%d *p; };" % (i, i) for i in range(k)),
 }
 
@@ -138,6 +145,41 @@ def steps(src):
     return cnt[0], time.thread_time() - t, ok
 
 
+def steps_lines(src):
+    """(LINE events under the pycparser package, cpu seconds, outcome): unlike call
+    counts this sees work done in loops that call nothing (walking a scope stack,
+    scanning a buffer)"""
+    global _PKG
+    if _PKG is None:
+        _PKG = _in_pkg_prefix()
+    cnt = [0]
+    pkg = _PKG
+
+    def local(frame, event, arg):
+        if event == "line":
+            cnt[0] += 1
+        return local
+
+    def tracer(frame, event, arg):
+        if frame.f_code.co_filename.startswith(pkg):
+            return local
+        return None
+
+    p = c_parser.CParser()
+    sys.settrace(tracer)
+    t = time.thread_time()
+    try:
+        p.parse(src, "f.c")
+        ok = True
+    except c_parser.ParseError as e:
+        ok = "ParseError: " + str(e)[:80]
+    except RecursionError:
+        ok = "RecursionError"
+    finally:
+        sys.settrace(None)
+    return cnt[0], time.thread_time() - t, ok
+
+
 def in_big_thread(fn, *a):
     out = []
     old = sys.getrecursionlimit()
@@ -164,13 +206,14 @@ RATIO = 2.3
 SLACK = 400
 
 
-def check_family(name, builder, ks, st, case):
+def check_family(name, builder, ks, st, case, measure=None):
     """builder(k) -> text.  Returns True if the family is valid (parses)."""
     prev = None
     series = []
+    measure = measure or steps
     for k in ks:
         src = builder(k)
-        n, t, ok = steps(src)
+        n, t, ok = measure(src)
         st.evaluations += 1
         if ok is not True:
             if prev is None:
@@ -233,8 +276,11 @@ def repeat_shard(arg):
 
     def job():
         for name in names:
+            if name in QUARANTINED_REPEAT:
+                st.excluded["cx.%s(F34)" % name] += 1
+                continue
             try:
-                valid = check_family("repeat:" + name, REPEAT[name], ks, st, ("repeat", name, list(ks)))
+                valid = check_family("repeat:" + name, REPEAT[name], ks, st, ("repeat", name, list(ks)), measure=steps_lines)
             except CheckFailure as f:
                 st.failures.append(f.failure)
                 continue
@@ -249,7 +295,7 @@ def repeat_shard(arg):
     return st
 
 
-BIG = ["decl", "typedef_use", "expr_stmt", "args", "init_list", "strings", "enumerators", "block_decls", "params", "members", "switch_cases"]
+BIG = ["knr_fdefs", "fdefs_with_locals", "decl", "typedef_use", "expr_stmt", "args", "init_list", "strings", "enumerators", "block_decls", "params", "members", "switch_cases"]
 
 
 def big_shard(name):
@@ -436,7 +482,7 @@ def replay(subcheck, case):
         us = tuple(tuple(u) for u in us)
         in_big_thread(check_family, "replay", lambda k: build(kind, us, k), tuple(ks), st, case)
     elif case[0] == "repeat":
-        in_big_thread(check_family, "replay", REPEAT[case[1]], tuple(case[2]), st, case)
+        in_big_thread(check_family, "replay", REPEAT[case[1]], tuple(case[2]), st, case, steps_lines)
     elif case[0] == "big":
         r = big_shard(case[1])
         if r.failures:
